@@ -89,6 +89,8 @@ def run_interval(ctx, shape, dim, fn, order, inplace, layout="contig"):
            "dim": dim, "shape": list(shape), "kind": "interval", "layout": layout}
     f = getattr(pp, cfg["fn"])
     strides = []
+    darg = dim if ctx.rng.random() < 0.7 else dim - len(shape)        # the same dimension, counted from the end
+    cfg["dimarg"] = darg
     try:
         if fn == "cumops":
             # documented: y_i = x_1 o ... o x_i, ops(a, b) with a the earlier prefix
@@ -96,10 +98,10 @@ def run_interval(ctx, shape, dim, fn, order, inplace, layout="contig"):
                 r = mon.mul(a, b)
                 return r
             inp = x
-            out = f(inp, dim, ops)
+            out = f(inp, darg, ops)
         else:
             inp = x.as_subclass(W)
-            out = f(inp, dim, left=(order == "left"))
+            out = f(inp, darg, left=(order == "left"))
     except Exception as ex:  # a call that raises for a valid L is a violation, judged by the trace spec
         return {"cfg": cfg, "ev": mon.log and _with_strides(mon.log, L) + [{"act": "raise", "msg": repr(ex)[:200]}]
                 or [{"act": "raise", "msg": repr(ex)[:200]}]}
@@ -186,12 +188,15 @@ def run_lie(ctx, ltype, L, batch, dim_first, fn, order, inplace, dtype, layout="
     try:
         method = ctx.rng.random() < 0.5
         cfg["form"] = "method" if method else "function"
+        # the same dimension counted from the end of the tensor (the last axis holds the element's coordinates)
+        darg = dim if ctx.rng.random() < 0.5 else dim - X.tensor().dim()
+        cfg["dimarg"] = darg
         if fn == "cumops":       # the user-defined-operation entry points on LieTensors
             ops = (lambda a, b: b @ a) if order == "left" else (lambda a, b: a @ b)
-            out = getattr(X, cfg["fn"])(dim, ops) if method else getattr(pp, cfg["fn"])(X, dim, ops)
+            out = getattr(X, cfg["fn"])(darg, ops) if method else getattr(pp, cfg["fn"])(X, darg, ops)
         else:
-            out = getattr(X, cfg["fn"])(dim, left=(order == "left")) if method else \
-                getattr(pp, cfg["fn"])(X, dim, left=(order == "left"))
+            out = getattr(X, cfg["fn"])(darg, left=(order == "left")) if method else \
+                getattr(pp, cfg["fn"])(X, darg, left=(order == "left"))
     except Exception as ex:
         return {"cfg": cfg, "ev": [{"act": "raise", "msg": repr(ex)[:200]}]}
     # sequential fold with the library's own product, item by item
